@@ -8,7 +8,7 @@ clashes at 0 and 0xFFFFFF, re-randomisation after a clash), later draws are dist
 from hypothesis import strategies as st
 
 from harness import hyp
-from harness.bus import Bus, NonTermination
+from harness.bus import Bus, NonTermination, run_interleaved
 from harness.model_gear import GearModel, DISABLED
 from harness.runner import Result, library_frame
 
@@ -17,13 +17,20 @@ LEVEL = "exploration"
 RULE = ("Hypothesis-generated buses: 0..70 gear with arbitrary initial short addresses (duplicates allowed), permitted "
         "subsets, readdress/dry-run flags, scripted random-address streams, optional faulty unit; distinct by case "
         "fingerprint; non-trivial = at least one clash restart (RANDOMISE issued more than once), or more than 64 units, "
-        "or the permitted set is exhausted, or a unit draws 0 or 0xFFFFFF")
+        "or the permitted set is exhausted, or a unit draws 0 or 0xFFFFFF; two runs in flight: (two such buses of 0..6 gear "
+        "each with their own permitted sets / flags, advance order) - fixed pairs of buses x a list of advance orders "
+        "(round-robin, reversed, blocks of 2 and 3, head starts up to the middle of the address search, one run completely "
+        "inside the other, strictly sequential) plus Hypothesis-generated pairs with run-length advance orders; "
+        "non-trivial = the two runs overlap in time (neither finished before the other started) and differ")
 ASSUMPTIONS = [
     "gear follow harness/model_gear.py: RANDOMISE/PROGRAM SHORT ADDRESS/VERIFY act in ENABLED and WITHDRAWN state, COMPARE "
     "and WITHDRAW only in ENABLED (IEC 62386-102 9.14.2; dali/tests/fakes.py models the same)",
     "two or more simultaneous answers are a framing error; the 15-minute initialisation timer is not modelled",
     "clashing units eventually draw different random addresses (fallback draws are distinct per unit)",
     "faulty-unit cases are only generated where every participant would be programmed and no clash is scripted",
+    "Commissioning runs in flight at the same time on separate buses (one driver per DALI line in one process) are "
+    "independent: each must put on its bus, do to its gear and return (or raise) exactly what it does when it runs alone "
+    "on a fresh identical bus",
 ]
 
 POOL = [0, 1, 2, 0x7FFFFF, 0x800000, 0xFFFFFE, 0xFFFFFF]
@@ -67,7 +74,15 @@ def as_form(permitted, form):
     return p
 
 
-def run_case(case):
+class Job:
+    """One Commissioning run prepared against its own population and bus; judged once its outcome is known."""
+
+    def __init__(self, case, units, bus, seq, where, cap):
+        self.case, self.units, self.bus, self.seq, self.where, self.cap = case, units, bus, seq, where, cap
+        self.before = [u.short for u in units]
+
+
+def prep_single(case):
     sequences, exc = _load()
     units = []
     for i, u in enumerate(case["units"]):
@@ -89,21 +104,41 @@ def run_case(case):
     # each unit found costs at most ~200 search commands + 3; every scripted draw can cause one restart
     cap = 230 * (n + 1) * (maxdraws + 2) + 400
     bus = Bus(units, max_commands=cap)
-    faulty = [i for i, u in enumerate(case["units"]) if u.get("fault")]
     where = "Commissioning(available=%s, readdress=%s, dry_run=%s) on %d gear (initial addresses %s)" % (
         "None" if permitted is None else permitted, readdress, dry, n, before if n <= 12 else str(before[:12]) + "...")
-    raised = None
+
+    def seq():
+        return sequences.Commissioning(available_addresses=as_form(permitted, case.get("permitted_form", "list")),
+                                       readdress=readdress, dry_run=dry)
+    return Job(case, units, bus, seq, where, cap)
+
+
+def run_alone(job):
+    """-> ("returned", value) | ("raised", exception)"""
     try:
-        bus.run(sequences.Commissioning(available_addresses=as_form(permitted, case.get("permitted_form", "list")),
-                                        readdress=readdress, dry_run=dry))
-    except NonTermination:
-        return [("C07:nontermination", "%s: more than %d commands (bound for this population)" % (where, cap))]
-    except exc.ProgramShortAddressFailure as e:
-        raised = e
-    except Exception as e:  # noqa
-        if library_frame(e.__traceback__) is None:
-            raise
-        return [("C07:raised:%s@%s" % (type(e).__name__, library_frame(e.__traceback__)), "%s raised %r" % (where, e))]
+        return ("returned", job.bus.run(job.seq()))
+    except Exception as e:  # noqa: classified by the judge
+        return ("raised", e)
+
+
+def judge_single(job, oc):
+    sequences, exc = _load()
+    case, units, where, before, cap = job.case, job.units, job.where, job.before, job.cap
+    permitted = case["permitted"]
+    readdress, dry = case["readdress"], case["dry_run"]
+    n = len(units)
+    faulty = [i for i, u in enumerate(case["units"]) if u.get("fault")]
+    raised = None
+    if oc[0] == "raised":
+        e = oc[1]
+        if isinstance(e, NonTermination):
+            return [("C07:nontermination", "%s: more than %d commands (bound for this population)" % (where, cap))]
+        if isinstance(e, exc.ProgramShortAddressFailure):
+            raised = e
+        else:
+            if library_frame(e.__traceback__) is None:
+                raise e
+            return [("C07:raised:%s@%s" % (type(e).__name__, library_frame(e.__traceback__)), "%s raised %r" % (where, e))]
     out = []
     if faulty:
         if raised is None:
@@ -151,6 +186,145 @@ def run_case(case):
     return out
 
 
+def case_single(case):
+    job = prep_single(case)
+    return judge_single(job, run_alone(job))
+
+
+# ----------------------------------------------------------- two runs in flight ----
+LAST_INTER = [None]     # (id(case), did the runs really overlap in time) of the most recent interleaved case
+
+
+EVENTS = {"T": 0xA1, "I": 0xA5, "R": 0xA7, "W": 0xAB, "P": 0xB7, "V": 0xB9}
+
+
+def resolve(count, trace):
+    """A block length: an integer, or - relative to what the same run puts on its bus when it runs alone - "p/q" (that
+    fraction of all its commands) or "<event><k><+|-><d>" (d commands after / before its k-th TERMINATE, INITIALISE,
+    RANDOMISE, WITHDRAW, PROGRAM SHORT ADDRESS, VERIFY SHORT ADDRESS; an advance puts one command on the bus, so "R1+0"
+    stops the run right after it has sent its first RANDOMISE).  An event that never happens counts as the end."""
+    if isinstance(count, int):
+        return max(0, count)
+    if "/" in count:
+        p, q = count.split("/")
+        return max(1, len(trace) * int(p) // int(q))
+    op, rest = EVENTS[count[0]], count[1:]
+    sign = "+" if "+" in rest else "-"
+    k, d = rest.split(sign)
+    pos = [n + 1 for n, t in enumerate(trace) if t[0] == 16 and (t[1] >> 8) == op]
+    if len(pos) < int(k):
+        return len(trace) + 1
+    return max(0, pos[int(k) - 1] + (int(d) if sign == "+" else -int(d)))
+
+
+def expand(blocks, traces):
+    """[[index, count], ...] -> index repeated count times, ... (run-length form of an advance order); a symbolic count
+    is relative to the run's total so far, so that [[0, "R1+0"], [1, 5], [0, "T2-1"]] brings run 0 up to its first
+    RANDOMISE, lets run 1 advance five times, then brings run 0 up to one command before its second TERMINATE."""
+    out = []
+    done = {}
+    for i, n in blocks or ():
+        if isinstance(n, int):
+            k = n
+        else:
+            k = max(0, resolve(n, traces[i]) - done.get(i, 0))
+        out.extend([i] * k)
+        done[i] = done.get(i, 0) + k
+    return out
+
+
+def _end_state(job):
+    """Everything the bus carried and everything its gear hold when the run is over."""
+    bus = job.bus
+    st = [("number of commands put on the bus", len(bus.commands)),
+          ("short addresses", [u.short for u in job.units]),
+          ("initialisation states", [u.init_state for u in job.units]),
+          ("random addresses", [u.random for u in job.units]),
+          ("search addresses", [u.search for u in job.units]),
+          ("RANDOMISE counts", [u.randomise_count for u in job.units]),
+          ("DTR0", [u.dtr0 for u in job.units]),
+          ("flags", [sorted(u.flags) for u in job.units])]
+    return st
+
+
+def _first_trace_difference(a, b):
+    for k, (x, y) in enumerate(zip(a, b)):
+        if x != y:
+            return "frame #%d is %s (answers %r), alone %s (answers %r)" % (k, "%d bits 0x%X twice=%s" % x[:3], x[3],
+                                                                            "%d bits 0x%X twice=%s" % y[:3], y[3])
+    if len(a) != len(b):
+        return "%d frames on the bus, alone %d" % (len(a), len(b))
+    return None
+
+
+def _result(oc):
+    if oc[0] == "raised":
+        return ("raised", type(oc[1]).__name__, str(oc[1]))
+    return ("returned", repr(oc[1]))
+
+
+def overlapping(order, n):
+    first, last = {}, {}
+    for pos, i in enumerate(order):
+        first.setdefault(i, pos)
+        last[i] = pos
+    return any(first[i] < last[j] and first[j] < last[i] for i in first for j in first if i < j)
+
+
+def case_interleaved(case):
+    """{"kind": "interleaved", "jobs": [case, case], "blocks": [[i, n], ...], "cycle": [...]}: Commissioning runs in
+    flight at once, each on its own bus with its own gear, advanced command by command: first as the run-length list
+    `blocks` says, then `cycle` repeatedly (a cycle naming only a finished run falls back to round-robin).  Each run must
+    satisfy the single-run oracle, end the way it ends alone, and its bus must have carried, and its gear must hold,
+    exactly what they do when the run is alone.  Block lengths may be symbolic (see resolve)."""
+    subs = case["jobs"]
+    refs = [prep_single(c) for c in subs]
+    rocs = [run_alone(r) for r in refs]          # first: symbolic block lengths refer to what each run does alone
+    jobs = [prep_single(c) for c in subs]
+    order = []
+    ocs = run_interleaved([(j.bus, j.seq) for j in jobs], expand(case.get("blocks"), [r.bus.trace for r in refs]),
+                          case.get("cycle") or None, order=order)
+    LAST_INTER[0] = (id(case), overlapping(order, len(jobs)))
+    out, seen = [], set()
+
+    def add(sig, msg):
+        if sig not in seen:
+            seen.add(sig)
+            out.append((sig, msg))
+
+    for i, (job, oc) in enumerate(zip(jobs, ocs)):
+        vs = judge_single(job, oc)
+        ref, roc = refs[i], rocs[i]
+        rvs = judge_single(ref, roc)
+        for sig, msg in rvs:                  # not a matter of interleaving: the run fails on its own
+            add(sig, msg)
+        alone = set(sig for sig, _ in rvs)
+        why = None
+        if _result(oc) != _result(roc):
+            why = "outcome %r, alone %r" % (_result(oc), _result(roc))
+        else:
+            for (name, a), (_, r) in zip(_end_state(job), _end_state(ref)):
+                if a != r:
+                    why = "%s: %r, alone %r" % (name, a, r)
+                    break
+        if why is None:
+            why = _first_trace_difference(job.bus.trace, ref.bus.trace)
+        if why is None and [v for v in vs if v[0] not in alone]:
+            why = "%s: %s" % [v for v in vs if v[0] not in alone][0]
+        if why:
+            add("C07:interleaved-sequences-interfere:commissioning",
+                "run #%d of %d in flight at the same time on separate buses (advances in blocks %r then cycle %r; the other: %s): "
+                "%s: %s" % (i, len(jobs), case.get("blocks"), case.get("cycle"),
+                            "; ".join(j.where for k, j in enumerate(jobs) if k != i), job.where, why))
+    return out
+
+
+def run_case(case):
+    if case.get("kind") == "interleaved":
+        return case_interleaved(case)
+    return case_single(case)
+
+
 def features(case):
     """Non-triviality classes of a case, computed from the case alone."""
     f = []
@@ -193,8 +367,8 @@ NONTRIVIAL = ("clash-on-first-draw", "more-than-64-units", "permitted-set-exhaus
 
 
 @st.composite
-def case_strategy(draw):
-    n = draw(st.one_of(st.integers(0, 6), st.integers(0, 6), st.integers(0, 20), st.integers(60, 70)))
+def case_strategy(draw, sizes=None):
+    n = draw(sizes if sizes is not None else st.one_of(st.integers(0, 6), st.integers(0, 6), st.integers(0, 20), st.integers(60, 70)))
     readdress = draw(st.booleans())
     dry = draw(st.sampled_from([False, False, False, True]))
     addr = st.one_of(st.none(), st.none(), st.integers(0, 63), st.integers(0, 5))
@@ -269,6 +443,8 @@ def reducer(case):
 
 
 def _shard(arg):
+    if arg[0] == "inter":
+        return _shard_inter(arg[1:])
     seed, n = arg
     res = Result()
     hyp.search(case_strategy(), run_case, res, n, seed, ID, shrink=False, reducer=reducer,
@@ -278,6 +454,163 @@ def _shard(arg):
     return res
 
 
+# ----------------------------------------------------------- two runs in flight ----
+def _u(short=None, randoms=(), **more):
+    d = {"short": short, "randoms": list(randoms)}
+    d.update(more)
+    return d
+
+
+def _c(units, permitted, readdress, dry=False, form="list"):
+    c = {"units": units, "permitted": permitted, "readdress": readdress, "dry_run": dry}
+    if permitted is not None:
+        c["permitted_form"] = form
+    return c
+
+
+def fixed_buses(seed):
+    """Small buses that differ in what Commissioning has to remember: the permitted addresses, the flags, the number of
+    gear found so far, whether a clash restarted the search."""
+    r = [(seed * 7919 + k * 25717 + 0x3039) & 0xFFFFFF for k in range(8)]
+    return [
+        _c([_u(), _u(), _u()], [3, 4, 5], False),
+        _c([_u(), _u(), _u()], [20, 21, 22], False, form="tuple"),
+        _c([_u(10), _u(None, [r[0]]), _u(11), _u(None, [r[1]])], [10, 11, 12, 13], False, form="set"),
+        _c([_u(1), _u(2), _u(3), _u(4), _u(5)], None, True),
+        _c([_u(None, [1]), _u(None, [1])], [60, 61, 62], False, form="iterator"),
+        _c([], None, True),
+        _c([_u(), _u(), _u(), _u(), _u(), _u()], [7], False),
+        _c([_u(8), _u(None, [r[2]]), _u(9)], None, True, dry=True),
+        _c([_u(None, []), _u(None, [], fault="mute_verify")], None, False),
+        _c([_u(None, [0]), _u(None, [0xFFFFFF]), _u(30, [r[3]])], [33, 32, 31, 30], True, form="generator"),
+        _c([_u(None, [2, 2]), _u(None, [2, 2]), _u(None, [r[4]])], list(range(40, 64)), False, form="range-if-contiguous"),
+        _c([_u(5, [r[5]], state="WITHDRAWN", old_random=5), _u(None, [r[6]], state="ENABLED", old_random=0x800000)], [0, 1], False),
+    ]
+
+
+# (blocks, cycle): advances in run-length form first, then the cycle repeatedly; a Commissioning run asks the 64
+# addresses first (unless readdress), so a head start of 70 or more puts the second run's start into the first run's
+# address search
+RUN_ORDERS = [
+    ([], [0, 1]), ([], [1, 0]),                                                         # round-robin, reversed
+    ([], [0, 0, 1, 1]), ([], [0, 0, 0, 1, 1, 1]), ([], [1, 1, 1, 0, 0, 0]), ([], [0, 1, 1]),    # blocks of 2 / 3, uneven
+    ([[0, 40], [1, 40], [0, 40], [1, 40], [0, 40], [1, 40]], [0, 1]),                   # blocks of 40
+    ([[0, 1]], [1, 0]), ([[0, 3]], [1, 0]), ([[0, 70]], [1, 0]), ([[0, 150]], [0, 1]),    # head starts
+    ([[1, 70]], [0, 1]), ([[1, 200]], [0, 1]),
+    ([[0, 1]], [1]), ([[0, 5]], [1]), ([[0, 70]], [1]), ([[0, 100]], [1]), ([[0, 300]], [1]),   # #1 completely inside #0
+    ([[1, 2]], [0]), ([[1, 70]], [0]), ([[1, 120]], [0]),                               # #0 completely inside #1
+    ([], [0]), ([], [1]),                                                               # strictly sequential
+]
+# run #1 starts when run #0 is at a phase boundary of its own (where it updates what it remembers: the restart flag,
+# the search bounds, the list of free addresses), then both alternate / #1 runs completely inside #0
+PHASES = ["R1+0", "R1+1", "T2-3", "T2-1", "T2+0", "R2+0", "P1-1", "P1+0", "P1+1", "W1+0", "W1+1", "P2+0", "W2+0", "V3+0",
+          "1/4", "1/2", "3/4", "7/8"]
+N_PLAIN_ORDERS = len(RUN_ORDERS)
+RUN_ORDERS += [([[0, ph]], cyc) for ph in PHASES for cyc in ([1, 0], [1])]
+
+
+def _inter(a, b, blocks, cycle):
+    return {"kind": "interleaved", "jobs": [a, b], "blocks": [list(x) for x in blocks], "cycle": list(cycle)}
+
+
+def fixed_pairs(seed, everything):
+    buses = fixed_buses(seed)
+    n = len(buses)
+    if everything:
+        return [(i, j) for i in range(n) for j in range(n)]
+    # quick tier: same population with two permitted sets, then a seed-dependent walk through the rest
+    return [(0, 1), (1, 0)] + [(i, (i * 5 + 2 + seed) % n) for i in range(n) if i != (i * 5 + 2 + seed) % n][:8]
+
+
+@st.composite
+def inter_strategy(draw):
+    import copy
+    small = st.integers(0, 6)
+    a = draw(case_strategy(sizes=small))
+    if draw(st.integers(0, 3)) == 0:
+        # the same population on both lines, commissioned with other addresses / flags
+        b = copy.deepcopy(a)
+        b["permitted"] = draw(st.one_of(st.none(), st.lists(st.integers(0, 63), unique=True, max_size=8)))
+        if b["permitted"] is None:
+            b.pop("permitted_form", None)
+        else:
+            b["permitted_form"] = draw(st.sampled_from(FORMS))
+        b["readdress"] = draw(st.booleans())
+        if any(u.get("fault") for u in b["units"]):
+            for u in b["units"]:
+                u.pop("fault", None)
+    else:
+        b = draw(case_strategy(sizes=small))
+    length = st.one_of(st.integers(1, 4), st.integers(1, 300), st.sampled_from(PHASES),
+                       st.tuples(st.sampled_from("TIRWPV"), st.integers(1, 4), st.sampled_from("+-"), st.integers(0, 3)).map(
+                           lambda t: "%s%d%s%d" % t))
+    blocks = draw(st.lists(st.tuples(st.integers(0, 1), length).map(list), max_size=6))
+    cycle = draw(st.sampled_from([[0, 1], [0, 1], [1, 0], [0, 0, 1, 1], [0, 1, 1], [0, 0, 0, 1, 1, 1], [1], [0]]))
+    return _inter(a, b, blocks, cycle)
+
+
+def inter_reducer(case):
+    import copy
+    for k in (0, 1):
+        for smaller in reducer(case["jobs"][k]):
+            c = copy.deepcopy(case)
+            c["jobs"][k] = smaller
+            yield c
+    if case["blocks"]:
+        c = copy.deepcopy(case)
+        c["blocks"] = c["blocks"][:-1]
+        yield c
+    if case["cycle"] != [0, 1]:
+        c = copy.deepcopy(case)
+        c["cycle"] = [0, 1]
+        yield c
+
+
+def _inter_nontrivial(c):
+    return LAST_INTER[0] is not None and LAST_INTER[0][0] == id(c) and LAST_INTER[0][1] and c["jobs"][0] != c["jobs"][1]
+
+
+def _shard_inter(arg):
+    what = arg[0]
+    res = Result()
+    if what == "fixed":
+        _, seed, everything, stride, offset = arg
+        buses = fixed_buses(seed)
+        k = 0
+        for pi, (i, j) in enumerate(fixed_pairs(seed, everything)):
+            for oi, (blocks, cycle) in enumerate(RUN_ORDERS):
+                if not everything and oi >= N_PLAIN_ORDERS and (oi + pi + seed) % 2:
+                    continue                   # quick tier: every other phase order, alternating with the pair
+                k += 1
+                if k % stride != offset:
+                    continue
+                case = _inter(buses[i], buses[j], blocks, cycle)
+                res.count()
+                vs = run_case(case)
+                if _inter_nontrivial(case):
+                    res.nontrivial()
+                res.label("interleaved:commissioning+commissioning")
+                res.label("interleaved:" + ("overlapping" if LAST_INTER[0][1] else "sequential"))
+                for sig, msg in vs:
+                    res.violation(sig, case, msg)
+        if offset == 0:
+            res.sample(_inter(buses[0], buses[1], [[0, 70]], [1, 0]), cls="two Commissioning runs in flight")
+    else:
+        _, seed, n = arg
+        hyp.search(inter_strategy(), run_case, res, n, seed, ID, shrink=False, reducer=inter_reducer,
+                   nontrivial=_inter_nontrivial,
+                   classify=lambda c: ["hyp:interleaved:commissioning+commissioning"] + sorted(set(
+                       "hyp:interleaved:" + f for j in c["jobs"] for f in features(j) if not f.startswith("permitted-given"))),
+                   extra_rounds_budget_s=10.0)
+    return res
+
+
 def run(ctx):
     n = 1200 if ctx.quick else 16000
-    ctx.pmap(_shard, [(ctx.seed * 1000 + k, max(1, n // 16)) for k in range(16)])
+    shards = [(ctx.seed * 1000 + k, max(1, n // 16)) for k in range(16)]
+    # two Commissioning runs in flight at the same time, each on its own bus
+    for k in range(16):
+        shards.append(("inter", "fixed", ctx.seed, not ctx.quick, 16, k))
+        shards.append(("inter", "hyp", ctx.seed * 1000 + 500 + k, 10 if ctx.quick else 150))
+    ctx.pmap(_shard, shards)
+    ctx.result.extra["runs_in_flight"] = "listed pairs of small buses x %d advance orders + Hypothesis sample (not exhaustive)" % len(RUN_ORDERS)
